@@ -114,6 +114,11 @@ def taskRun (result : Res) (values : Vals) (ran : Nat) : List ARes → TRes
 /-- a fresh task: `result = None`, `values = {}` -/
 def taskExecute (as : List ARes) : TRes := taskRun .none [] 0 as
 
+/-- `Task.execute_teardown`: the same loop over the teardown actions; `result` / `values` are not touched -/
+def teardownRun (ran : Nat) : List ARes → Outcome × Nat
+  | [] => (.ok, ran)
+  | a :: rest => if a.outcome = .ok then teardownRun (ran + 1) rest else (a.outcome, ran + 1)
+
 /-! ## what is shown live -/
 
 /-- `Stream._get_out_err(verbosity)`: is a live stream handed to the actions for (stdout, stderr)?
